@@ -184,7 +184,10 @@ func (s *c10Sim) apply(op c10Op) {
 	wasBlocked := s.blockedOn() >= 0
 	switch op.Op {
 	case "sub":
-		sb := &simSub{prompt: op.P}
+		sb := &simSub{prompt: op.P, cancelled: op.C}
+		if op.C {
+			s.tag("degenerate/SUBSCRIBE WITH A CONTEXT THAT HAS ALREADY ENDED")
+		}
 		s.subs = append(s.subs, sb)
 		s.pendSubs = append(s.pendSubs, sb)
 		if wasBlocked {
@@ -236,6 +239,11 @@ func (s *c10Sim) apply(op c10Op) {
 		s.subs[op.I].prompt = true
 	case "cancel":
 		sb := s.subs[op.I]
+		for _, ps := range s.pendSubs {
+			if ps == sb {
+				s.tag("degenerate/context ends while its Subscribe call is still waiting for the lock")
+			}
+		}
 		if !sb.cancelled {
 			if wasBlocked && s.blockedOn() == op.I {
 				s.departingBlocker = true
